@@ -4,7 +4,7 @@ from simcheck import sim_check
 
 def run(tier, seed, replay):
     kws = [dict(events=True, weights=dict(sev=4.0, cev=3.0, edeliver=6.0)), dict(events=True, nclients=3, sessions=True), dict(events=True, auth="custom", nclients=2), dict(events=True, nclients=3, weights=dict(session=0.6))]
-    return sim_check("C05", tier, seed, kws, n_quick=240, n_thorough=6000, oracle_props={"C05"},
+    return sim_check("C05", tier, seed, kws, n_quick=240, n_thorough=24000, oracle_props={"C05"},
                      rule_extra=", events of five server types and three client types in both directions, all send modes, clients connecting, authorizing and disconnecting at arbitrary points",
                      extra_assumptions=["intended recipients of a dependent event are the connections that exist when it is written and are authorized when the tick flushes it (unauthorized connections only get independent events, C07)",
                                         "a reconnect happens after at least one client frame (C09's premise); otherwise the event queue of the old session survives (C05_quick_reconnect_receives_old_event)",
